@@ -22,7 +22,7 @@ Definition empty_store : store := mk_store [] [].
 
 (* os.path.join(fdir, f) names the directory itself / its parent for these three *)
 Definition is_dirname (f : fname) : bool :=
-  match f with [] => true | [46%N] => true | [46%N; 46%N] => true | _ => false end.
+  str_eqb f [] || str_eqb f [46%N] || str_eqb f [46%N; 46%N].
 
 (* FileLock(f + ".lock") acquire/release: the lock file exists afterwards and is empty *)
 Definition touch_lock (f : fname) (d : dir) : dir := aset (lock_of f) [] d.
@@ -35,15 +35,19 @@ Inductive out :=
 | RUnit | RVal (v : pystr) | RKeys (l : list bytes) | RItems (l : list (bytes * pystr))
 | RBool (b : bool) | RLen (n : nat) | RErr (e : exc).
 
-(* __setitem__ *)
+(* __setitem__: a file name ending in ".lock" is refused before anything is touched (ValueError);
+   the three directory names fail at open() (IsADirectoryError) after the lock file was created *)
 Definition do_set (k : bytes) (v : pystr) (s : store) : store * out :=
   let f := quote_plus k in
-  if is_dirname f then (mk_store (touch_lock f (st_dir s)) (st_cache s), RErr (Refused 21))   (* IsADirectoryError *)
+  if is_lock f then (s, RErr ValueError)
+  else if is_dirname f then (mk_store (touch_lock f (st_dir s)) (st_cache s), RErr (Refused 21))
   else (mk_store (aset f v (touch_lock f (st_dir s))) (aset f v (st_cache s)), RUnit).
 
-(* __getitem__: is_changed -> KeyError when the file is missing; read (under its lock) when unseen *)
+(* __getitem__: a name ending in ".lock" is never a stored value (KeyError before anything is read);
+   is_changed -> KeyError when the file is missing; the file is read (under its lock) when unseen *)
 Definition do_get (k : bytes) (s : store) : store * out :=
   let f := quote_plus k in
+  if is_lock f then (s, RErr KeyError) else
   match assoc f (st_dir s) with
   | None => (s, RErr KeyError)
   | Some c =>
@@ -104,9 +108,12 @@ Definition observe_new (d : dir) : list (bytes * pystr) :=
 
 (* ---- the specification: a plain key -> value map ---- *)
 Definition amap := list (bytes * pystr).
+(* keys the store refuses to write (nothing is stored for them) *)
+Definition set_refusal (k : bytes) : option exc :=
+  if is_lock k then Some ValueError else if is_dirname k then Some (Refused 21) else None.
 Definition astep (m : amap) (o : op) : amap * out :=
   match o with
-  | OSet k v => (aset k v m, RUnit)
+  | OSet k v => match set_refusal k with Some e => (m, RErr e) | None => (aset k v m, RUnit) end
   | OGet k => (m, match assoc k m with Some v => RVal v | None => RErr KeyError end)
   | ODel k => (adel k m, RUnit)
   | OKeys => (m, RKeys (map fst m))
@@ -125,12 +132,10 @@ Fixpoint arun (m : amap) (ops : list op) : amap * list out :=
 (* the abstraction: unquote_plus o filename over the data files *)
 Definition abs (d : dir) : amap := unq_items (filter nonlock d).
 
-(* ---- the guard: keys the store handles (everything else is refused or is a finding) ---- *)
+(* ---- the only side condition: keys are byte strings (the UTF-8 encoding of a str) ---- *)
 Definition bytes_ok (k : bytes) : bool := forallb (fun c => c <? 256)%N k.
-Definition key_ok (k : bytes) : bool :=
-  bytes_ok k && negb (is_dirname k) && negb (is_lock k).
 Definition op_ok (o : op) : bool :=
-  match o with OSet k _ | OGet k | ODel k | OContains k => key_ok k | _ => true end.
+  match o with OSet k _ | ODel k | OContains k | OGet k => bytes_ok k | _ => true end.
 Definition ops_ok (ops : list op) : bool := forallb op_ok ops.
 
 (* ---- correspondence cases ---- *)
@@ -169,7 +174,7 @@ Fixpoint chk_trace_from (s : store) (t : list obs) : bool :=
       && same_set str_eqb listing (map fst (st_dir (synch (mk_store (st_dir s1) []))))
       && chk_trace_from (mk_store (st_dir (synch (mk_store (st_dir s1) []))) (st_cache s1)) r
   end.
-(* traces outside the guard are outside the modelled fragment (mtime-dependent re-reads) *)
+(* the model covers every byte-string key *)
 Definition chk_trace (t : list obs) : bool :=
   if ops_ok (map fst t) then chk_trace_from empty_store t else true.
 Definition diag_trace (t : list obs) : list out * list fname :=
